@@ -298,6 +298,47 @@ func runC15(c *core.Ctx) {
 	}
 	c.Sample(map[string]interface{}{"n": 33, "failing": []int{7, 31}, "expect": "error of leaf 7, nil hash"})
 
+	// ---- unusual but legal BinaryMarshaler implementations: nil slices, one buffer re-used for every leaf (overwritten at
+	// each call), all leaves windows of one array, a marshaler that returns a fresh value on every call ----
+	for _, hh := range []crypto.Hash{crypto.SHA256, crypto.BLAKE2b_256} {
+		for _, n := range []int{1, 2, 3, 5, 8, 13, 64, 65} {
+			raw := c15Leaves(n, 3)
+			want := refMerkleRoot(hh, raw)
+			shared := make([]byte, 0, 128)
+			arrayOf := make([]byte, 0, n*80)
+			variants := map[string][]encoding.BinaryMarshaler{}
+			for i := range raw {
+				i := i
+				variants["re-used buffer"] = append(variants["re-used buffer"], c15fn(func() ([]byte, error) { shared = append(shared[:0], raw[i]...); return shared, nil }))
+				off := len(arrayOf)
+				arrayOf = append(arrayOf, raw[i]...)
+				variants["windows of one array"] = append(variants["windows of one array"], &c15leaf{b: arrayOf[off:len(arrayOf):len(arrayOf)]})
+				variants["fresh copy per call"] = append(variants["fresh copy per call"], c15fn(func() ([]byte, error) { return append([]byte{}, raw[i]...), nil }))
+				if len(raw[i]) == 0 {
+					variants["nil for empty"] = append(variants["nil for empty"], c15fn(func() ([]byte, error) { return nil, nil }))
+				} else {
+					variants["nil for empty"] = append(variants["nil for empty"], &c15leaf{b: raw[i]})
+				}
+			}
+			for name, data := range variants {
+				got, err := merkle.NewHasher(hh).Hash(data)
+				c.Eval(1)
+				nontriv++
+				if err != nil || !bytes.Equal(got, want) {
+					c.Violate("C15/marshaler/"+name, fmt.Sprintf("%v, %d leaves, marshaler kind %q: Hash=%x err=%v, tree hash of the marshaled leaves is %x", hh, n, name, got, err, want), map[string]interface{}{"n": n, "kind": name}, "", nil)
+				}
+			}
+			// nil list vs empty list
+			if n == 1 {
+				a, _ := merkle.NewHasher(hh).Hash(nil)
+				b, _ := merkle.NewHasher(hh).Hash([]encoding.BinaryMarshaler{})
+				if !bytes.Equal(a, b) || !bytes.Equal(a, refMerkleRoot(hh, nil)) {
+					c.Violate("C15/marshaler/nil-vs-empty-list", "Hash(nil) and Hash(empty) differ", nil, "", nil)
+				}
+			}
+		}
+	}
+
 	// ---- every leaf length 0..300 (thorough 0..1100): alone and as leaf 0 / leaf 3 of a 5-leaf tree ----
 	{
 		maxLeaf := 300
@@ -414,3 +455,7 @@ func runC15(c *core.Ctx) {
 	c.SetExhaustive(true)
 	c.Assume = []string{"Go crypto hash implementations", "RFC 9162 2.1.3.2 verifier transcribed by hand"}
 }
+
+type c15fn func() ([]byte, error)
+
+func (f c15fn) MarshalBinary() ([]byte, error) { return f() }
